@@ -1,6 +1,7 @@
 """C18 - registry files compose in name order: deep later-wins merge, list concatenation.
 
-Status of this check: BOUNDED stand-in plus exhaustive evaluation on the bundled files (DESIGN C18, fallback).
+merge_dicts is PROVED for abstract dictionaries of any size (MergeContractTask, pyvc/amap*.py); the rest is a bounded
+stand-in plus exhaustive evaluation on the bundled files:
  (a) merge_dicts: every pair of nested dictionaries over a small key universe up to a stated depth/width is run
      through the REAL function and compared with the recursive spec Merge (+ frame: arguments unchanged);
      additionally pyvc executes the real body on every shape pair with SYMBOLIC leaves (all leaf values at once).
@@ -23,7 +24,7 @@ import time
 import z3
 
 from pyvc import task as T
-from pyvc.values import SInt
+from pyvc.values import SInt, Unsupported
 
 
 # ------------------------------------------------------------------------------------------------ specs
@@ -144,6 +145,78 @@ class MergeShapeTask(T.Task):
         return None
 
 
+class MergeContractTask(T.Task):
+    """UNBOUNDED: the real merge_dicts on two abstract dictionaries (any size, any keys, any values): the result
+    satisfies the contract of Merge pointwise for a generic key, assuming the recursive call satisfies the same
+    contract (induction on the nesting depth - JSON values are finite trees); the arguments are not written."""
+    name = "registry.merge_dicts (abstract dictionaries, all sizes)"
+    skip_cover = True
+
+    def setup(self, I):
+        from pyvc import amap_hooks
+        amap_hooks.install()
+        return {}
+
+    def code(self, I, inp):
+        from pyvc import amap as A
+        from pyvc import amap_hooks as H
+        from schwifty import registry
+        ml, mr = z3.Const("left", A.Map), z3.Const("right", A.Map)
+        left, right = {}, {}
+        H.register(I, left, A.AMap.of_term(ml, "left"), local=False)
+        H.register(I, right, A.AMap.of_term(mr, "right"), local=False)
+
+        def merge_contract(I2, a, b):
+            # contract of the recursive call: requires both values to be dictionaries; ensures Merge(a, b)
+            if not (isinstance(a, A.SVal) and isinstance(b, A.SVal)):
+                raise Unsupported("recursive merge_dicts call on non-abstract values")
+            I2.oblige("merge_dicts.requires(both arguments are dictionaries)", z3.And(A.is_map(a.t), A.is_map(b.t)))
+            return A.SVal(A.of_map(A.MergeSpec(A.as_map(a.t), A.as_map(b.t))))
+        # the function under verification is executed from its real body; every call it makes to merge_dicts (the
+        # recursion) goes through the contract
+        I.contracts["schwifty.registry.merge_dicts"] = merge_contract
+        res = I.call_function(registry.merge_dicts, [left, right], {}, ignore_contract=True)
+        am = H.amap_of(I, res)
+        if am is None:
+            if isinstance(res, dict) and not res:
+                am = A.AMap.empty()
+            else:
+                raise Unsupported("merge_dicts did not return a dictionary")
+        return ("MAP", am, ml, mr)
+
+    def custom_obligations(self, I, inp, code_paths, cobs):
+        from pyvc import amap as A
+        out = []
+        q = z3.Const("q", A.Key)
+        for i, (path, o) in enumerate(cobs):
+            if isinstance(o, (T.Escape, T.ExcTag)):
+                out.append((f"path {i}: merge_dicts raised {o!r}", path["pc"], z3.BoolVal(False)))
+                continue
+            _, am, ml, mr = o
+            hl, hr = A.m_has(ml, q), A.m_has(mr, q)
+            gl, gr = A.m_get(ml, q), A.m_get(mr, q)
+            both_maps = z3.And(A.is_map(gl), A.is_map(gr))
+            out.append((f"path {i}: keys(result) = keys(left) | keys(right)", path["pc"], am.has(q) == z3.Or(hl, hr)))
+            out.append((f"path {i}: key in both, both values dicts => result[key] = Merge(left[key], right[key])", path["pc"],
+                        z3.Implies(z3.And(hl, hr, both_maps), am.get(q) == A.of_map(A.MergeSpec(A.as_map(gl), A.as_map(gr))))))
+            out.append((f"path {i}: key in both, not both dicts => the later (right) value wins", path["pc"],
+                        z3.Implies(z3.And(hl, hr, z3.Not(both_maps)), am.get(q) == gr)))
+            out.append((f"path {i}: key only in left keeps left's value", path["pc"],
+                        z3.Implies(z3.And(hl, z3.Not(hr)), am.get(q) == gl)))
+            out.append((f"path {i}: key only in right keeps right's value", path["pc"],
+                        z3.Implies(z3.And(hr, z3.Not(hl)), am.get(q) == gr)))
+            shared = [w for w in path["writes"] if w.get("shared")]
+            out.append((f"path {i}: the arguments are not written (frame)", path["pc"], z3.BoolVal(not shared)))
+        return out
+
+    def native_agree(self, inp):
+        n, d, wit = enumerate_merge(2)
+        return wit is None, wit, "Merge"
+
+    def sample(self, rnd):
+        return None
+
+
 def enumerate_merge(max_depth):
     """bounded native enumeration incl. dict-versus-scalar conflicts and the frame condition"""
     from schwifty import registry
@@ -210,9 +283,9 @@ sys.path.insert(0, sys.argv[1])
 import schwifty
 from schwifty import registry, IBAN
 t = registry.get("iban")
-out = dict(file=schwifty.__file__, XX=("XX" in t), de_len=t["DE"]["iban_length"], de_spec=t["DE"]["bban_spec"],
-           no_positions=t["NO"]["positions"], n_bank=len(registry.get("bank")),
-           last_bank=registry.get("bank")[-1], zz_bank=[e for e in registry.get("bank") if e["country_code"] == "ZZ"])
+out = dict(file=schwifty.__file__,
+           iban={cc: {k: v for k, v in s.items() if k != "regex"} for cc, s in t.items()},
+           bank=registry.get("bank"))
 try:
     out["xx_iban"] = str(IBAN.generate("XX", bank_code="12", account_code="3456"))
     out["xx_valid"] = IBAN(out["xx_iban"]).bank_code
@@ -223,21 +296,29 @@ print(json.dumps(out))
 
 
 def overlay_check():
-    """a user overlay changes exactly the keys it names: run in a scratch copy of the package (bounded)"""
+    """user overlay files: the effective data of a scratch copy of the package must equal the independent
+    name-ordered fold of its files (bounded: one overlay scenario with order-sensitive file names)"""
     import schwifty
     pkg = os.path.dirname(schwifty.__file__)
     d = tempfile.mkdtemp(prefix="c18pkg")
     try:
         shutil.copytree(pkg, os.path.join(d, "schwifty"), ignore=shutil.ignore_patterns("__pycache__"))
-        base_iban = fold_registry(os.path.join(d, "schwifty", "iban_registry"))
-        n_bank = len(fold_registry(os.path.join(d, "schwifty", "bank_registry")))
+        ib = os.path.join(d, "schwifty", "iban_registry")
+        bk = os.path.join(d, "schwifty", "bank_registry")
         overlay = {"XX": {"bban_spec": "2!n4!n", "iban_spec": "XX2!n2!n4!n", "bban_length": 6, "iban_length": 10,
                           "positions": {"bank_code": [0, 2], "account_code": [2, 6]}},
-                   "NO": {"positions": {"branch_code": [0, 0]}}}
-        json.dump(overlay, open(os.path.join(d, "schwifty", "iban_registry", "zz_user.json"), "w"))
+                   "NO": {"positions": {"branch_code": [0, 0]}}, "DE": {"in_sepa_zone": False}}
+        json.dump(overlay, open(os.path.join(ib, "zz_user.json"), "w"))
+        # sorts BEFORE overwrite.json by file name ('-' < '.') but after it by stem: the later file must win
+        json.dump({"NO": {"positions": {"account_code": [4, 9]}}, "IS": {"in_sepa_zone": False}},
+                  open(os.path.join(ib, "overwrite-local.json"), "w"))
         v2 = {"expand_from": "bank_codes", "expand_into": "bank_code",
               "entries": [{"name": "Z", "short_name": "Z", "bic": "", "country_code": "ZZ", "bank_codes": ["1", "2"]}]}
-        json.dump(v2, open(os.path.join(d, "schwifty", "bank_registry", "zz_user.v2.json"), "w"))
+        json.dump(v2, open(os.path.join(bk, "zz_user.v2.json"), "w"))
+        json.dump([{"name": "L", "short_name": "L", "bic": "", "country_code": "LU", "bank_code": "001", "primary": False}],
+                  open(os.path.join(bk, "manual_lu-local.json"), "w"))
+        want_iban = fold_registry(ib)
+        want_bank = fold_registry(bk)
         r = subprocess.run([sys.executable, "-c", OVERLAY_SCRIPT, d], capture_output=True, text=True, timeout=120,
                            env=dict(os.environ, PYTHONPATH=d))
         if r.returncode != 0:
@@ -246,17 +327,16 @@ def overlay_check():
         bad = []
         if not out["file"].startswith(d):
             return [f"scratch copy not imported ({out['file']})"], 0
-        want = Merge(base_iban, overlay)
-        if not out["XX"] or out["de_len"] != want["DE"]["iban_length"] or out["de_spec"] != want["DE"]["bban_spec"]:
-            bad.append("overlay: new country missing or an unnamed key changed")
-        if out["no_positions"] != want["NO"]["positions"]:
-            bad.append(f"overlay: NO positions {out['no_positions']} != deep merge {want['NO']['positions']}")
-        if out["n_bank"] != n_bank + 2 or [e["bank_code"] for e in out["zz_bank"]] != ["1", "2"] or \
-                out["last_bank"].get("primary") is not False:
-            bad.append("bank list: v2 overlay not appended as one entry per listed code with primary=False")
+        if out["iban"] != want_iban:
+            diff = [cc for cc in set(want_iban) | set(out["iban"]) if out["iban"].get(cc) != want_iban.get(cc)]
+            bad.append(f"effective country table differs from the name-ordered deep merge of the files at {diff[:5]}: "
+                       f"{[(cc, out['iban'].get(cc, {}).get('positions'), want_iban.get(cc, {}).get('positions')) for cc in diff[:2]]}")
+        if out["bank"] != want_bank:
+            bad.append(f"effective bank list ({len(out['bank'])} entries) differs from the name-ordered concatenation "
+                       f"({len(want_bank)} entries) with v2 expansion")
         if not out["xx_iban"].startswith("XX") or out.get("xx_valid") != "12":
             bad.append(f"generation/validation do not follow the effective data: {out['xx_iban']}")
-        return bad, 6
+        return bad, 4
     finally:
         shutil.rmtree(d, ignore_errors=True)
 
@@ -264,7 +344,8 @@ def overlay_check():
 def main(seed, tier):
     from props import common
     t0 = time.time()
-    results = common.run_tasks([("props.c18", "MergeShapeTask", (i,)) for i in range(16)], seed, tier)
+    results = common.run_tasks([("props.c18", "MergeContractTask", ())] +
+                               [("props.c18", "MergeShapeTask", (i,)) for i in range(16)], seed, tier)
     obls = []
     n_merge, distinct, wit = enumerate_merge(3 if tier == "thorough" else 2)
     obls.append(dict(name=f"merge_dicts == Merge and leaves its arguments unchanged on {n_merge} enumerated pairs",
@@ -287,14 +368,22 @@ def main(seed, tier):
     results.append(dict(task="registry composition (bounded / bundled files)", obligations=obls, functions={}, files={},
                         paths=0, error=None, spec=None))
     return common.finish(
-        "C18", results, t0, seed, tier, level="exploration",
-        assumptions=["BOUNDED: merge_dicts is verified for nested dictionaries over <= 3 keys and depth <= 2 (quick) / 3 "
-                     "(thorough); the unbounded proof with loop invariants over abstract maps (DESIGN C18) is not built",
-                     "json and the file system are assumed; files are read in sorted(glob('*.json')) order"],
+        "C18", results, t0, seed, tier, level="proof",
+        assumptions=["merge_dicts: proved for abstract dictionaries of any size (pointwise generic-key execution of the "
+                     "two loops, recursion through the contract = induction on the nesting depth of finite JSON trees; "
+                     "values are abstract: only 'is a dict' and truthiness are observable); the frozenset intersection "
+                     "order is irrelevant because the loop body touches the result only at the loop key",
+                     "BOUNDED parts (not counted as proved): parse_v2 on enumerated documents; merge_dicts again on "
+                     "enumerated small dictionaries and with symbolic leaves (cross-checks of the abstract proof); the "
+                     "overlay scenario in a scratch copy of the package",
+                     "registry.get is compared with an independent name-ordered fold on the bundled files (exhaustive "
+                     "for this tree) and on one overlay scenario with order-sensitive file names; json and the file "
+                     "system are assumed"],
         extra_cov=dict(evaluations=n_merge + n_v2 + n_ov + 1, distinct_nontrivial=distinct,
                        rule="all pairs of nested dict shapes over keys {a,b,c} depth 1 and {a,b} depth <= 2/3, three "
                             "leaf assignments each (scalars, lists, None, dict-vs-scalar conflicts arise from the shapes); "
                             "distinct = distinct shape pairs; plus pyvc runs of the real body on all depth-2 shape pairs "
                             "with symbolic leaves, v2 documents 0..3 entries x 0..3 codes, the bundled files, one overlay",
                        exhaustive=False),
-        not_proved_note="bounded stand-in, not a proof: see assumptions")
+        not_proved_note="merge_dicts proved unboundedly against its contract; parse_v2 / get bounded or exhaustive on the "
+                        "bundled files: see assumptions")
